@@ -300,7 +300,11 @@ impl<T: TransportFallback> TimeAwareMatrixTransportCost<T> {
 
                 (profile, (timestamps, matrices))
             })
-            .collect();
+            .collect::<HashMap<usize, (Vec<u64>, Vec<MatrixData>)>>();
+
+        if costs.values().any(|(timestamps, _)| timestamps.windows(2).any(|pair| pair[0] == pair[1])) {
+            return Err("duplicate timestamps for the same profile".into());
+        }
 
         Ok(Self { costs, size, fallback })
     }
